@@ -33,7 +33,7 @@ def strategy_(draw):
     prms = case['prms']
     if case['cls'] != 'limit_crossing' and draw(st.integers(0, 9)) < 8:
         prms['BASE_LVL_HEIGHT_PERC'] = draw(st.sampled_from([0, 5, 5, 10, 50, 90, 100]))
-        prms['BASE_LVL_LOOKBACK_PERC'] = draw(st.sampled_from([100, 100, 100, 75, 50, 50, 30, 30, 20, 10]))
+        prms['BASE_LVL_LOOKBACK_PERC'] = draw(st.sampled_from([100, 100, 100, 75, 50, 50, 30, 30, 20, 10, 5, 2]))
     if draw(st.integers(0, 99)) < 35:
         names = sorted(set(r[0] for r in case['rows']))
         prms['EXCLUDE_FOR_BASE_HEIGHT_CALC'] = sorted(draw(st.sets(
